@@ -256,6 +256,13 @@ def _g_complete(w):
     return not any(v.status == "ready" and v.pending is not None and v.pending.kind != "start" for v in w.vprocs)
 
 
+@guard("complete_any")
+def _g_complete_any(w):
+    """The completion flag is on disk (the completing process may still be running)."""
+    d = _cluster_state(w)
+    return d is not None and bool(d.get("is_complete"))
+
+
 @guard("always")
 def _g_always(w):
     return True
